@@ -280,12 +280,43 @@ def run_lines(cmd, lines, timeout=600, env=None, shards=1):
     """Feed [lines] to cmd on stdin, return the output lines (one per input line).
     With shards > 1 the input is split and run in parallel."""
     if shards <= 1 or len(lines) < 2 * shards:
-        p = sh(cmd, input="\n".join(lines) + "\n", timeout=timeout, env=env,
-               stderr=subprocess.PIPE)
-        out = p.stdout.split("\n")
-        if out and out[-1] == "":
-            out.pop()
-        return out, p.returncode, p.stderr
+        # One process for all lines.  When it hangs or dies before having answered every line, the case
+        # it was working on gets the marker "!timeout" / "!died:<rc>" (after whatever it had printed for
+        # it) and a fresh process continues with the cases after it, so that one hang or crash is a
+        # located disagreement (see diff_cases) instead of an exception or a line-count mismatch.
+        out, rest, rc_all, err_all, restarts, tmo = [], list(lines), 0, "", 0, timeout
+        if not rest:    # a command that needs no input lines: run it once
+            p = sh(cmd, input="\n", timeout=timeout, env=env, stderr=subprocess.PIPE)
+            o = p.stdout.split("\n")
+            if o and o[-1] == "":
+                o.pop()
+            return o, p.returncode, p.stderr
+        while rest:
+            try:
+                p = sh(cmd, input="\n".join(rest) + "\n", timeout=tmo, env=env, stderr=subprocess.PIPE)
+                txt, rc, status = p.stdout, p.returncode, "exit"
+                err_all += p.stderr or ""
+            except subprocess.TimeoutExpired as e:
+                txt = e.stdout or ""
+                if isinstance(txt, bytes):
+                    txt = txt.decode("utf-8", "replace")
+                rc, status, tmo = -9, "timeout", min(timeout, 60)
+            rc_all = rc_all or rc
+            o = txt.split("\n")
+            partial = o.pop() if o else ""
+            if status == "exit" and (len(o) >= len(rest) or rc == 0):
+                out += o + ([partial] if partial else [])
+                break
+            o = o[:len(rest)]
+            out += o
+            if len(o) < len(rest):
+                out.append((partial + " " if partial else "") + ("!timeout" if status == "timeout" else "!died:%d" % rc))
+            rest = rest[len(o) + 1:]
+            restarts += 1
+            if restarts > 6 and rest:
+                out += ["!notrun"] * len(rest)
+                break
+        return out, rc_all, err_all
     n = (len(lines) + shards - 1) // shards
     parts = [lines[i:i + n] for i in range(0, len(lines), n)]
     with concurrent.futures.ThreadPoolExecutor(shards) as ex:
@@ -432,7 +463,14 @@ def diff_cases(chk, name, cases, impl_out, model_out, monitor=None, max_report=3
     bad = []       # (has_reason, kind, case, impl, model, reason)
     for c, a, b in zip(cases, impl_out, model_out):
         chk.count(name, c + "=>" + a)
-        reason = monitor(c, a) if monitor else None
+        if a.endswith("!timeout") or re.search(r"!died:-?\d+$", a):
+            reason = ("the implementation %s on this case (harness %s)"
+                      % (("hangs", "gave no further output within the time limit") if a.endswith("!timeout")
+                         else ("crashes or aborts", "process ended with status " + a.rsplit(":", 1)[1])))
+        elif a == "!notrun":
+            reason = None
+        else:
+            reason = monitor(c, a) if monitor else None
         if reason and reason.startswith("KNOWN:"):
             f = chk.match_known(reason[6:])
             if f is not None:
